@@ -42,6 +42,7 @@ structure Conn where
   tls : Bool                             -- r.TLS != nil once Server.ServeHTTP ran (it recovers the state from the
                                          --   connection in the context when a listener wrapper left r.TLS nil)
   host : Bytes                           -- r.Host
+  earlyData : Bool                       -- r.TLS != nil && !r.TLS.HandshakeComplete (request arrived as TLS 0-RTT data)
 deriving DecidableEq, Repr
 
 def kXFF : Bytes := [88, 45, 70, 111, 114, 119, 97, 114, 100, 101, 100, 45, 70, 111, 114]
@@ -298,8 +299,9 @@ def matchCidrZones (N : Net Addr Prefix) (a : Addr) (zoneID : Bytes) : List (MRa
     if N.contains r.pfx a && (decide (r.zone = []) || decide (zoneID = r.zone)) then true
     else matchCidrZones N a zoneID rest
 
-/-- `MatchClientIP.MatchWithError` / `MatchRemoteIP.MatchWithError` on their respective address
-    (handshake complete) -/
+/-- `MatchClientIP.MatchWithError` / `MatchRemoteIP.MatchWithError` on their respective address, after
+    their guard `if r.TLS != nil && !r.TLS.HandshakeComplete { return false, Error(425, …) }`
+    ("remote IP cannot be verified" for 0-RTT data; the guard is in `consumers`) -/
 def matchAddress (N : Net Addr Prefix) (ranges : List (MRange Prefix)) (address : Bytes) : Bool :=
   match parseIPZone N address with
   | some az => matchCidrZones N az.1 az.2 ranges
@@ -319,8 +321,8 @@ deriving DecidableEq, Repr
 def consumers (N : Net Addr Prefix) (ranges : List (MRange Prefix)) (c : Conn) (clientIP : Bytes) : Consumers :=
   { placeholder := clientIP
     logField := clientIP
-    clientMatch := matchAddress N ranges clientIP
-    remoteMatch := matchAddress N ranges c.remoteAddr
+    clientMatch := if c.earlyData then false else matchAddress N ranges clientIP
+    remoteMatch := if c.earlyData then false else matchAddress N ranges c.remoteAddr
     proxyProto := (N.parseAddr clientIP).map N.toString }
 
 /-- one request: what the consumers see -/
